@@ -11,7 +11,7 @@ Local Open Scope list_scope.
 From Ecal Require Import Common.Sched Model.ParseShared.
 
 Record case := mkCase {
-  c_id : nat;
+  c_id : N;
   c_progs : list (list action);   (* per thread: the actions of its parse (from the real token list) *)
   c_sched : list nat;             (* big steps: thread ids; complete (every thread ends) *)
   c_hooks : list nat;             (* implementation: hook hits of each text parsed alone *)
@@ -63,5 +63,5 @@ Definition verdict (c : case) : nat :=
        | _, _ => 4
        end.
 
-Definition check_all (cs : list case) : list (nat * nat) :=
+Definition check_all (cs : list case) : list (N * nat) :=
   filter (fun p => negb (Nat.eqb (snd p) 0)) (map (fun c => (c_id c, verdict c)) cs).
